@@ -20,6 +20,16 @@ CHECKS = {
   text="Theorems iterate_comb / comb_length / comb_sorted_vars / comb_keys / comb_index (combinatorial mode is the product over variable names in sorted order, last name fastest), pos_aligned / pos_unequal_rejected, pos_broadcast_cycles / cycleRun_value (broadcast takes position i mod n_v — cycling, not padding), merge_precedence (computed by expression > node-level value), elements_ordered (one element per step, in step order, each the wrapped body applied to the merged parameters), published_every_var. Real pipelines with a sweep node of each wrapped kind (source/operation/probe), every variable form (lists, values, ranges linear/log with/without endpoint, from_context), both modes, broadcast, tuple and integer expressions and surrounding nodes are run and compared element by element with the model.",
   note="Trusted: Lean kernel; props/c03.py generator; numpy range materialisation is outside the model (values taken from the run, contract checked in Python); expressions limited to tuples of variables and the integer fragment of C12. No generated side condition beyond the C01 precedence table.",
   design="§7 C03"),
+ "C04": dict(
+  technique="Lean 4 proof (canonical form of JSON trees: sorting members by key at every depth is invariant under member re-ordering, by induction over a congruence-closed PermEq relation; canonicity of sorted lists with distinct keys) + decidable side condition on facts probed from the real code + identities recomputed from the model's pre-images (hashed in the harness) vs the real ones + metamorphic / cross-process / history runs of the real code",
+  text="Theorems norm_permEq / canonical_permEq / identity_permEq (configurations equal up to mapping-member order at any depth have the same canonical text, hence the same hash, whatever the hash), uuidPre_permEq, nodeSemPre_reorder (re-ordering the parameters/variables mappings of a sweep does not change the node-semantic pre-image, given that the code sorts context_keys — re-decided from a probe of the real code), configPre_order_independent. Purity is structural: the pre-images are Lean functions of the configuration only. The real node UUIDs, pipeline id, semantic id, config id and node semantic ids are re-derived by hashing the model's pre-image strings and must coincide on the inspection path, the Pipeline path and pipeline_start; cosmetic YAML rewrites, operand shuffles, fresh processes with different hash seeds and working directories, prior history and reuse of a Pipeline object must not change them.",
+  note="Trusted: Lean kernel; SHA-256/UUIDv5/json.dumps (outside the model); PyYAML (rewrites are defined by deep typed equality of the loaded documents); the probe-based flags; the generated class name of swept nodes is read off the code.",
+  design="§7 C04"),
+ "C05": dict(
+  technique="Lean 4 proof (field access through the sorted normal form; tree-level injectivity of the identity pre-images) + decidable side condition (the pipeline semantic payload rolls up node semantic ids) + single-point mutation testing of the real identities",
+  text="Theorems lookup_norm_obj / field_eq_of_norm_eq, nodeCanon_injective (equal canonical node trees agree on processor, parameters at any depth, ports and declaration index), nodeCanon_distinct_positions (textually identical nodes at different positions have different pre-images), sweepMeta_injective (wrapped processor, mode, broadcast, variable domains, expression signatures), semanticPayload_injective (ordered UUID list and, as re-decided from the code, node semantic ids of swept nodes). Every single-point mutation operator (processor, each parameter leaf at every depth, each field of a sweep definition, insert/delete/swap of nodes) is applied to generated configurations and must change semantic id, config id and the node's UUID or node semantic id; UUIDs within a pipeline must be distinct.",
+  note="Trusted: Lean kernel; collision resistance of SHA-256/UUIDv5 and injectivity of the compact JSON rendering on normal forms (text level) — the theorems are at tree level, i.e. this part is partial by design; injectivity of decimal numerals (hypothesis hnum).",
+  design="§7 C05"),
  "C06": dict(
   technique="Lean 4 proof (the template-method lifecycle as a function of a shape record and a fault plan; loop lemma by induction over the node list) + decidable side condition on the try/except/finally shape extracted from execute() + fault-injection runs of the real orchestrator compared with the model and judged by a real-code oracle",
   text="Theorem trace_wellformed: for every lifecycle shape satisfying `good` and every fault plan — any number of nodes, a failure at any node or during node construction, of Exception class or BaseException class — the emitted stream is exactly pipeline_start, one SER per started node (all succeeded but a final failing one), one pipeline_end that is ok iff the run returned; the original exception reaches the caller; the driver is closed (corollaries bracketed, always_closed). The shape is re-extracted from SemantivaOrchestrator.execute on every run and `shape.good` re-decided. Real traced runs inject a fault at every node index for every failure kind (processor exception, KeyboardInterrupt, unresolvable parameter, type gate, undeclared write, two construction errors) across detail levels and file/directory output; the record sequence is compared with the model run on the same plan, and ids, upstream lists vs canonical edges, schema validity of every line, the exception class and the closed file are checked on the real output.",
